@@ -315,9 +315,9 @@ def cq_zl(l):
 
 
 def cq_fview(v):
-    return "{| fv_chain := %s; fv_pre := %s; fv_snaps := %s; fv_post := %s |}" % (
+    return "{| fv_chain := %s; fv_pre := %s; fv_snaps := %s; fv_post := %s; fv_intro := %s |}" % (
         C.cq_list([cq_role(r) for r in v["chain"]]), C.cq_list([cq_zl(g) for g in v["pre"]]),
-        cq_zl(v["snaps"]), cq_zl(v["post"]))
+        cq_zl(v["snaps"]), cq_zl(v["post"]), C.cq_bool(v.get("intro", True)))
 
 
 def cq_mview(m):
